@@ -73,6 +73,50 @@ class Path:
         return " and ".join(("" if pol else "not ") + "(" + unparse(t) + ")" for t, pol in self.conds)
 
 
+_MUTATORS = {"append", "insert", "extend", "add", "update", "pop", "remove", "clear", "discard", "setdefault", "popitem",
+             "appendleft", "popleft", "sort", "reverse", "__setitem__", "__delitem__"}
+
+
+def _mutated_object(effect):
+    """text of the object an effect changes in place: `O.m(..)` with a mutating container method, `O[k] = v`, `O.a = v`"""
+    if isinstance(effect, ast.Expr):
+        effect = effect.value
+    if isinstance(effect, ast.Call) and isinstance(effect.func, ast.Attribute) and effect.func.attr in _MUTATORS:
+        return unparse(effect.func.value)
+    tgt = None
+    if isinstance(effect, ast.Assign) and len(effect.targets) == 1:
+        tgt = effect.targets[0]
+    elif isinstance(effect, ast.AugAssign):
+        tgt = effect.target
+    if isinstance(tgt, ast.Subscript):
+        return unparse(tgt.value)
+    if isinstance(tgt, ast.Attribute):
+        return unparse(tgt)
+    return None
+
+
+def freeze_readers(env, effects, effect):
+    """a local bound to an expression that reads object O keeps the value O had when it was bound: before an effect that
+    changes O in place, such locals are materialised as positional symbols (`_pre0 = <value>` recorded as an effect), so
+    that `n = len(xs); xs.append(y); use(n)` and `xs.append(y); n = len(xs); use(n)` get different summaries"""
+    obj = _mutated_object(effect)
+    if obj is None:
+        return env, effects
+    new_env = None
+    for name, val in env.items():
+        if not isinstance(val, ast.AST) or isinstance(val, (ast.Name, ast.Constant)):
+            continue
+        if any(isinstance(n, (ast.Attribute, ast.Subscript, ast.Name)) and unparse(n) == obj for n in ast.walk(val)):
+            k = sum(1 for e in effects if isinstance(e, ast.Assign) and isinstance(e.targets[0], ast.Name) and
+                    e.targets[0].id.startswith("_pre"))
+            sym = f"_pre{k}"
+            effects = effects + [ast.Assign(targets=[ast.Name(id=sym, ctx=ast.Store())], value=val, lineno=getattr(effect, "lineno", 0))]
+            if new_env is None:
+                new_env = dict(env)
+            new_env[name] = ast.Name(id=sym, ctx=ast.Load())
+    return (new_env if new_env is not None else env), effects
+
+
 def assigned_names(stmts):
     out = set()
     for s in stmts:
@@ -420,6 +464,16 @@ def run_paths(stmts, env=None, max_paths=256, decide=None, inline=None, fold=Non
                 continue
             if isinstance(s, ast.Assign):
                 val = D(F(subst(s.value, env)), conds)
+                if isinstance(val, ast.IfExp) and not isinstance(s.value, ast.IfExp) and len(s.targets) == 1 and \
+                        isinstance(s.targets[0], ast.Name):
+                    # the conditional came from expanding a helper with two return paths: follow them as paths
+                    rest = stmts[i:]
+                    t_ = s.targets[0]
+                    for branch, pol in ((val.body, True), (val.orelse, False)):
+                        env2 = dict(env)
+                        env2[t_.id] = branch
+                        go(rest, 0, env2, conds + [(val.test, pol)], effects)
+                    return
                 for t in s.targets:
                     if isinstance(t, ast.Name):
                         env = dict(env)
@@ -453,9 +507,13 @@ def run_paths(stmts, env=None, max_paths=256, decide=None, inline=None, fold=Non
                                 env = dict(env)
                                 env[e.id] = v
                             else:
-                                effects = effects + [ast.Assign(targets=[subst(e, env)], value=v, lineno=s.lineno)]
+                                eff_ = ast.Assign(targets=[subst(e, env)], value=v, lineno=s.lineno)
+                                env, effects = freeze_readers(env, effects, eff_)
+                                effects = effects + [eff_]
                     else:
-                        effects = effects + [ast.Assign(targets=[subst(t, env)], value=val, lineno=s.lineno)]
+                        eff_ = ast.Assign(targets=[subst(t, env)], value=val, lineno=s.lineno)
+                        env, effects = freeze_readers(env, effects, eff_)
+                        effects = effects + [eff_]
                 continue
             if isinstance(s, ast.AugAssign):
                 if isinstance(s.target, ast.Name):
@@ -463,8 +521,9 @@ def run_paths(stmts, env=None, max_paths=256, decide=None, inline=None, fold=Non
                     env = dict(env)
                     env[s.target.id] = ast.BinOp(left=copy.deepcopy(cur), op=s.op, right=subst(s.value, env))
                 else:
-                    effects = effects + [ast.AugAssign(target=subst(s.target, env), op=s.op, value=subst(s.value, env),
-                                                       lineno=s.lineno)]
+                    eff_ = ast.AugAssign(target=subst(s.target, env), op=s.op, value=subst(s.value, env), lineno=s.lineno)
+                    env, effects = freeze_readers(env, effects, eff_)
+                    effects = effects + [eff_]
                 continue
             if isinstance(s, ast.Expr):
                 v = s.value
@@ -485,11 +544,23 @@ def run_paths(stmts, env=None, max_paths=256, decide=None, inline=None, fold=Non
                     env = dict(env)
                     env[v.func.value.id] = ast.Dict(keys=keys, values=vals)
                     continue
-                effects = effects + [D(F(subst(s.value, env)), conds)]
+                eff_ = D(F(subst(s.value, env)), conds)
+                env, effects = freeze_readers(env, effects, eff_)
+                effects = effects + [eff_]
                 continue
             if isinstance(s, ast.Return):
-                results.append(Path(conds, env, D(F(subst(s.value, env)), conds) if s.value is not None else None, "return",
-                                    effects, s.lineno))
+                rv = D(F(subst(s.value, env)), conds) if s.value is not None else None
+                # `return A if c else B` is the two-path `if c: return A` / `return B`
+                def ret_paths(v, conds_, budget=4):
+                    if isinstance(v, ast.IfExp) and budget > 0:
+                        verdict = _entailed(v.test, conds_)
+                        if verdict is not False:
+                            ret_paths(v.body, conds_ + [(v.test, True)] if verdict is None else conds_, budget - 1)
+                        if verdict is not True:
+                            ret_paths(v.orelse, conds_ + [(v.test, False)] if verdict is None else conds_, budget - 1)
+                    else:
+                        results.append(Path(conds_, env, v, "return", effects, s.lineno))
+                ret_paths(rv, conds)
                 return
             if isinstance(s, ast.Raise):
                 results.append(Path(conds, env, subst(s.exc, env) if s.exc is not None else None, "raise", effects,
@@ -542,7 +613,18 @@ def run_paths(stmts, env=None, max_paths=256, decide=None, inline=None, fold=Non
                 return
             if isinstance(s, (ast.With, ast.AsyncWith)):
                 rest = stmts[i:]
-                go(list(s.body) + rest, 0, env, conds, effects)
+                # the block is delimited in the summary (`with m.If(c):` — what is inside matters); `as` names are opaque
+                items = [subst(it.context_expr, env) for it in s.items]
+                env = dict(env)
+                for it in s.items:
+                    if it.optional_vars is not None:
+                        for n in ast.walk(it.optional_vars):
+                            if isinstance(n, ast.Name):
+                                env.pop(n.id, None)
+                enter = [ast.Expr(value=ast.Call(func=ast.Name(id="__with__", ctx=ast.Load()), args=[x], keywords=[]), lineno=s.lineno)
+                         for x in items]
+                leave = [ast.Expr(value=ast.Name(id="__end_with__", ctx=ast.Load()), lineno=s.lineno)]
+                go(enter + list(s.body) + leave + rest, 0, env, conds, effects)
                 return
             if isinstance(s, (ast.For, ast.AsyncFor, ast.While)):
                 env = dict(env)
